@@ -24,10 +24,17 @@ def l1_monitor(rec):
         from workflows.runtime.types.commands import CommandRunWorker
         from workflows.runtime.types.results import AddCollectedEvent
         ip0 = next((x for x in before.workers[t.step_name].in_progress if x.worker_id == t.worker_id), None)
-        rerun = any(isinstance(c, CommandRunWorker) and c.step_name == t.step_name and c.event is t.event for c in cmds)
+        from workflows.events import StepState, StepStateChanged
+        # (the slot was NOT released in this tick - no NOT_RUNNING for it - and a CommandRunWorker names it again: a re-run of
+        # this very invocation, not another queued attempt that took the slot over)
+        released = any(isinstance(c, CommandPublishEvent) and isinstance(c.event, StepStateChanged)
+                       and c.event.name == t.step_name and c.event.step_state == StepState.NOT_RUNNING
+                       and c.event.worker_id == str(t.worker_id) for c in cmds)
+        rerun = (not released) and any(isinstance(c, CommandRunWorker) and c.step_name == t.step_name and c.id == t.worker_id
+                                       and c.event is t.event for c in cmds)
         if ip0 is not None and rerun and any(isinstance(r, AddCollectedEvent) for r in t.result) \
                 and not any(isinstance(r, StepWorkerFailed) for r in t.result):
-            same = [x for x in after.workers[t.step_name].in_progress if x.event is t.event]
+            same = [x for x in after.workers[t.step_name].in_progress if x.worker_id == t.worker_id and x.event is t.event]
             if same and not any((x.attempts, x.first_attempt_at) == (ip0.attempts, ip0.first_attempt_at) for x in same):
                 return ["the re-run of a collecting invocation (stale snapshot) of step %s restarted as attempt %s (first attempt at %s); "
                         "the invocation was attempt %s, first attempt at %s: its retry budget starts over"
